@@ -51,6 +51,7 @@ type ChildOpts struct {
 	Of       int
 	OutDir   string
 	Only     string          // run only this unit (replay / pinning)
+	ListOnly bool            // only write the unit names to units.txt
 	PerCase  bool            // journal every guarded call before making it
 	Skip     map[string]bool // units to skip (already done or poisoned)
 	Tag      string          // file name tag (distinguishes reruns)
@@ -60,23 +61,24 @@ type ChildOpts struct {
 
 // Ctx is handed to Property.Run in a child.
 type Ctx struct {
-	o        ChildOpts
-	j        *bufio.Writer
-	jf       *os.File
-	unitSeq  int
-	curUnit  string
-	inUnit   bool
-	evals    int64
-	nt       map[uint64]struct{}
-	ntByCons int64
-	obs      map[string]int64
-	samples  int
-	sampleBy map[string]int
-	viols    int
-	violKeys map[string]int
-	stopped  bool
-	streams  map[string]*bufio.Writer
-	sfiles   []*os.File
+	o         ChildOpts
+	j         *bufio.Writer
+	jf        *os.File
+	unitSeq   int
+	curUnit   string
+	inUnit    bool
+	evals     int64
+	nt        map[uint64]struct{}
+	ntByCons  int64
+	obs       map[string]int64
+	samples   int
+	sampleBy  map[string]int
+	viols     int
+	violKeys  map[string]int
+	stopped   bool
+	streams   map[string]*bufio.Writer
+	unitNames []string
+	sfiles    []*os.File
 
 	// guarded-call state read by the watchdog goroutine
 	mu        sync.Mutex
@@ -182,6 +184,10 @@ func RunChild(o ChildOpts) {
 		}()
 		o.Prop.Run(c)
 	}()
+	if o.ListOnly {
+		os.WriteFile(filepath.Join(o.OutDir, "units.txt"), []byte(strings.Join(c.unitNames, "\n")), 0o644)
+		os.Exit(ExitOK)
+	}
 	c.finish()
 	if c.stopped {
 		os.Exit(ExitStop)
@@ -270,6 +276,10 @@ func trimStack(s string) string {
 func (c *Ctx) Unit(name string, f func()) {
 	seq := c.unitSeq
 	c.unitSeq++
+	if c.o.ListOnly {
+		c.unitNames = append(c.unitNames, name)
+		return
+	}
 	if c.stopped {
 		return
 	}
@@ -450,6 +460,9 @@ func (c *Ctx) NTDistinct(n int) { c.ntByCons += int64(n) }
 
 // Obs adds n to the named observation counter.
 func (c *Ctx) Obs(name string, n int) { c.obs[name] += int64(n) }
+
+// ObsGet returns the current value of an observation counter in this child.
+func (c *Ctx) ObsGet(name string) int64 { return c.obs[name] }
 
 // ObsMax keeps the maximum of the named observation.
 func (c *Ctx) ObsMax(name string, v int) {
